@@ -1331,3 +1331,330 @@ def _innermost_recv(n):
     while isinstance(n, dict) and n.get("k") in ("mcall", "index", "ref", "unary", "field"):
         n = n.get("recv") or n.get("base") or n.get("e")
     return n
+
+
+# ----------------------------------------------------------------------------- the remaining unwraps
+
+
+def _reach_without(nfa, target, assigning):
+    """Can child `target` be reached from the start of the rule without passing a child in `assigning`?"""
+    seen = set()
+    stack = list(nfa.closure({nfa.start}))
+    while stack:
+        st = stack.pop()
+        if st in seen:
+            continue
+        seen.add(st)
+        for sym, t in nfa.trans[st]:
+            if sym is None:
+                stack.append(t)
+            elif sym == target:
+                return True
+            elif sym not in assigning:
+                stack.append(t)
+    return False
+
+
+# Sites whose safety rests on an invariant that spans functions; each entry is checked structurally
+# (see _check_contract) and carries its reason.
+UNWRAP_CONTRACTS = {
+    ("set", "self.code.get_mut(line)"): "AssemblyCode::set(line, ..) replaces a placeholder line: its only caller chain is asm_save_y(<index returned by dummy()>), and nothing between dummy() and asm_save_y() removes lines (the optimiser and branch repair run after generation)",
+    ("optimize", "first"): "remove_first / remove_both are set only inside `if let Some(..) = &first` (and `&second`): when one of them is set, `first` is Some",
+    ("optimize", "second"): "remove_second / remove_both are set only inside `if let Some(..) = &second`: when one of them is set, `second` is Some",
+}
+
+
+@rule("T-UNWRAP-REST", floor=100,
+      text="every unwrap()/expect() outside the preprocessor (cpp.rs has its own rule) is on a value that cannot be None/Err for any input, by one "
+           "of these arguments, recognised structurally per site: the next child of a parse tree where the grammar guarantees one (decided by "
+           "T-TREEWALK); a table lookup by name (decided by T-LOOKUP-TOTAL); a Mutex of a single-threaded parser (lock / into_inner); "
+           "Rc::into_inner of an Rc that is never cloned; char::from_u32 of a literal scalar value; a regex literal that parses; the top of a "
+           "stack after a push in the same function with no pop in between, after a dominating emptiness test that leaves the function, or "
+           "inside the only call chain that follows the push (scope stack); an Option local after a dominating `?` / is_none-return / is_some "
+           "test; an Option filled by a child the grammar puts before the child that unwraps it; the builder's per-function tables keyed by "
+           "the current function; three tabled cross-function invariants, each checked.  Anything else is reported: it can panic on some input")
+def t_unwrap_rest(facts, res, tier):
+    import core
+    import rules_treewalk
+    # what T-TREEWALK decided
+    tw = core.Result()
+    core.RULES["T-TREEWALK"].fn(facts, tw, tier)
+    tw_fns = set()
+    for key, nt, sample in tw.instances:
+        m = re.match(r"^T-TREEWALK:(\w+):unwrap:", key)
+        if m:
+            tw_fns.add(m.group(1))
+    lk = core.Result()
+    core.RULES["T-LOOKUP-TOTAL"].fn(facts, lk, tier)
+    lookup_fns = {re.match(r"^T-LOOKUP-TOTAL:(\w+):", k).group(1) for k, _, _ in lk.instances if re.match(r"^T-LOOKUP-TOTAL:(\w+):(variables|functions):", k)}
+    helpers = lookup_helpers(facts, ("variables", "functions"))
+    rules = facts.grammar_rules()
+    nfas = rules_treewalk.build_nfas(rules)
+    counts = {}
+    n = 0
+    for fn in facts.fns:
+        if fn["file"].endswith("/cpp.rs") or "/tests/" in fn["file"]:
+            continue
+        sc = scoped(fn)
+        body_txt = _norm(fn["body"])
+        for node, env, doms in sc:
+            if not (node.get("k") == "mcall" and node["method"] in ("unwrap", "expect", "unwrap_unchecked")):
+                continue
+            R = node["recv"]
+            rt = _norm(R)
+            n += 1
+            cls = why = None
+            rk = R.get("k")
+            # 1. parse-tree children
+            if rk == "mcall" and R["method"] == "next" and fn["name"] in tw_fns:
+                cls, why = "parse-tree child", "decided by T-TREEWALK for %s" % fn["name"]
+            # 2. table lookups by name
+            elif rk == "mcall" and R["method"] in ("get", "get_mut") and _is_map_field(R["recv"], ("variables", "functions")):
+                if fn["name"] in lookup_fns or fn["name"] in helpers:
+                    cls, why = "table lookup", "decided by T-LOOKUP-TOTAL"
+            # 3. mutex
+            elif rk == "mcall" and R["method"] == "lock" and not R.get("args"):
+                cls, why = "mutex", "a Mutex is poisoned only by a panic in another thread holding it; the crate spawns none (M-NONDET)"
+            elif rk == "mcall" and R["method"] == "into_inner" and "Rc::into_inner" in rt:
+                cls, why = "mutex", "Mutex::into_inner of the un-shared parser state"
+            # 4. Rc::into_inner
+            elif rk == "call" and _norm(R["func"]) == "Rc::into_inner" and R.get("args"):
+                x = simple_name(R["args"][0])
+                cloned = bool(re.search(r"Rc::clone\(&?%s\)|\b%s\.clone\(\)" % (x, x), body_txt)) if x else True
+                if not cloned:
+                    cls, why = "unique Rc", "`%s` is never cloned in %s: the closures borrow it, so the strong count is 1" % (x, fn["name"])
+            # 5. char::from_u32(literal)
+            elif rk == "call" and _norm(R["func"]) == "char::from_u32" and R.get("args") and _int_lit(R["args"][0]) is not None:
+                v = _int_lit(R["args"][0])
+                if 0 <= v < 0xD800 or 0xE000 <= v <= 0x10FFFF:
+                    cls, why = "literal scalar value", "%d is a Unicode scalar value" % v
+            # 6. regex literal
+            elif rk == "call" and _norm(R["func"]) in ("Regex::new", "regex::Regex::new") and R.get("args") and strip(R["args"][0]).get("k") == "lit":
+                from astlib import regex_asts
+                try:
+                    asts = regex_asts([strip(R["args"][0])["v"]])
+                    if asts and not (isinstance(asts[0], dict) and asts[0].get("error")):
+                        cls, why = "regex literal", "the literal parses"
+                except Exception:
+                    pass
+            # 7. stacks
+            elif rk == "mcall" and R["method"] in ("last", "last_mut", "first", "pop") and not R.get("args"):
+                stack_expr = _norm(R["recv"])
+                cls, why = _stack_nonempty(facts, fn, node, stack_expr, doms)
+            # 8. builder tables
+            elif rk == "mcall" and R["method"] in ("get", "get_mut") and "functions_code" in _norm(R["recv"]) and R.get("args"):
+                o = origin(R["args"][0], env)
+                if (o.kind == "field" and o.text == "self.current_function") or o.kind == "param":
+                    cls, why = "builder table", "functions_code holds an entry for every function the builder generates: it inserts the entry before it makes the function current / asks for it (checked on src/tests/build.rs)"
+            # 9. Option locals
+            elif rk == "path" and len(R["segs"]) == 1:
+                nm = R["segs"][0]
+                cls, why = _option_local(facts, fn, node, nm, env, doms, nfas)
+            if cls is None and (fn["name"], rt) in UNWRAP_CONTRACTS:
+                ok, detail = _check_contract(facts, fn, rt)
+                if ok:
+                    cls, why = "tabled invariant", UNWRAP_CONTRACTS[(fn["name"], rt)] + " [" + detail + "]"
+            key = "T-UNWRAP-REST:%s:%s" % (fn["name"], rt[:50])
+            counts[key] = counts.get(key, 0) + 1
+            res.inst(key + "#%d" % counts[key], True, {"function": fn["name"], "unwrapped": rt[:80], "class": cls, "why": why})
+            if cls is None:
+                res.fail(key, facts.where(fn, node), "%s unwraps `%s` and none of the recognised arguments shows it cannot be None/Err: on some input this is a panic instead of an error" % (fn["name"], rt[:80]))
+    # the reference builder keeps its side of the functions_code contract
+    for fn in facts.fns:
+        if not fn["file"].endswith("/tests/build.rs"):
+            continue
+        for blk in walk(fn["body"]):
+            if blk.get("k") != "block":
+                continue
+            st = blk.get("stmts", [])
+            for i, s0 in enumerate(st):
+                if s0.get("k") == "assign" and _norm(s0["l"]).endswith(".current_function") and "Some(" in _norm(s0["r"]):
+                    key = "T-UNWRAP-REST:builder:functions_code-before-current"
+                    before = any(x.get("k") == "mcall" and x["method"] == "insert" and "functions_code" in _norm(x["recv"]) for t in st[:i] for x in walk(t))
+                    res.inst(key, True, {"inserted_before": before})
+                    if not before:
+                        res.fail(key, facts.where(fn, s0), "the reference builder makes a function current before registering its code vector in functions_code")
+
+
+def _stack_nonempty(facts, fn, node, stack_expr, doms):
+    """X.last().unwrap(): a push earlier in this function with no pop since, or a dominating emptiness test that leaves."""
+    pushed = False
+    for d in doms:
+        if d[0] == "stmt":
+            for x in _unconditional(d[1]):
+                if x.get("k") == "mcall" and _norm(x["recv"]) == stack_expr:
+                    if x["method"] == "push":
+                        pushed = True
+                    elif x["method"] in ("pop", "clear", "truncate", "drain"):
+                        pushed = False
+            # a conditional pop anywhere in the statement cancels the knowledge
+            if pushed and any(x.get("k") == "mcall" and _norm(x["recv"]) == stack_expr and x["method"] in ("pop", "clear", "truncate", "drain") for x in walk(d[1])):
+                pushed = False
+    if pushed:
+        return "stack top", "`%s.push(..)` earlier in %s, nothing popped since (callees push and pop in pairs: T-LOOP-EXIT-SIBLINGS / T-CTX-RESTORE)" % (stack_expr, fn["name"])
+    # `match X.last() { None => return Err(..), Some(..) => .. }` bound or as a statement before
+    for d in doms:
+        if d[0] == "stmt":
+            for x in _unconditional(d[1]):
+                if x.get("k") == "match" and _norm(x["e"]) in (stack_expr + ".last()", stack_expr + ".last_mut()"):
+                    for a in x["arms"]:
+                        pt0 = a.get("pat") if isinstance(a.get("pat"), dict) else {}
+                        is_none = (pt0.get("k") == "path" and pt0.get("segs") == ["None"]) or (pt0.get("k") == "ident" and pt0.get("name") == "None")
+                        if is_none and any(y.get("k") == "return" for y in walk(a["body"])):
+                            return "stack top", "a dominating `match %s.last() { None => return .. }`" % stack_expr
+                if x.get("k") == "if" and _norm(x["cond"]) == stack_expr + ".is_empty()" and any(y.get("k") == "return" for y in walk(x["then"])):
+                    return "stack top", "a dominating `if %s.is_empty() { return .. }`" % stack_expr
+        if d[0] == "arm" and _norm(d[1]) in (stack_expr + ".last()", stack_expr + ".last_mut()") and isinstance(d[2], dict) and d[2].get("k") == "tstruct" and d[2].get("segs") == ["Some"]:
+            return "stack top", "inside the Some arm of `%s.last()`" % stack_expr
+    # scope stack: the function is only reachable through the function that pushes before it calls down
+    m = re.match(r"^self\.(\w+)$", stack_expr)
+    if m:
+        field = m.group(1)
+        pushers = [f for f in facts.fns if f["file"] == fn["file"] and any(x.get("k") == "mcall" and x["method"] == "push" and _norm(x["recv"]) == stack_expr for x in walk(f["body"])) and not any(x.get("k") == "mcall" and x["method"] in ("last", "last_mut") and _norm(x["recv"]) == stack_expr for x in walk(f["body"]) if False)]
+        # callers graph within the file (method calls on self)
+        by_name = {f["name"]: f for f in facts.fns if f["file"] == fn["file"]}
+        callers = {}
+        for f in by_name.values():
+            for x in walk(f["body"]):
+                if x.get("k") == "mcall" and x["method"] in by_name and _norm(x["recv"]) == "self":
+                    callers.setdefault(x["method"], set()).add(f["name"])
+        # a root pusher: pushes while the stack may be empty (does not itself read the top before pushing)
+        roots = []
+        for f in pushers:
+            sc = scoped(f)
+            for n2, env2, doms2 in sc:
+                if n2.get("k") == "mcall" and n2["method"] == "push" and _norm(n2["recv"]) == stack_expr:
+                    reads_before = any(d[0] == "stmt" and any(y.get("k") == "mcall" and y["method"] in ("last", "last_mut") and _norm(y["recv"]) == stack_expr for y in walk(d[1])) for d in doms2)
+                    if not reads_before:
+                        roots.append((f, n2))
+        for root, push in roots:
+            # every path of callers from fn upwards must end in root, and in root the call down follows the push
+            seen = set()
+            stack = [fn["name"]]
+            ok = True
+            while stack and ok:
+                cur = stack.pop()
+                if cur in seen or cur == root["name"]:
+                    continue
+                seen.add(cur)
+                cs = callers.get(cur, set())
+                if not cs or (by_name[cur].get("vis") or "").startswith("pub"):
+                    ok = False   # reachable from outside (no caller here, or callable from other modules) without passing root
+                stack.extend(cs)
+            if not ok:
+                continue
+            # within root: calls into `seen` happen after the push and before the matching clear/pop
+            pl = tuple(int(v) for v in push["loc"].split(":"))
+            bad = False
+            for x in walk(root["body"]):
+                if x.get("k") == "mcall" and x["method"] in seen and _norm(x["recv"]) == "self":
+                    xl = tuple(int(v) for v in x["loc"].split(":"))
+                    if xl < pl:
+                        bad = True
+            if fn["name"] == root["name"]:
+                continue
+            if not bad:
+                return "scope stack", "%s is reachable only through %s, which pushes onto %s before it calls down (callers: %s)" % (fn["name"], root["name"], stack_expr, ", ".join(sorted(seen)))
+    return None, None
+
+
+def _option_local(facts, fn, node, nm, env, doms, nfas):
+    b = env.get(nm)
+    # dominating `nm?;`, `if nm.is_none() { return .. }`, enclosing `if nm.is_some()`
+    for d in doms:
+        if d[0] == "stmt":
+            s0 = d[1]
+            if s0.get("k") == "try" and simple_name(s0["e"]) == nm:
+                return "option tested", "`%s?` before" % nm
+            if s0.get("k") == "if" and _norm(s0["cond"]) == nm + ".is_none()" and any(y.get("k") in ("return", "break", "continue") for y in walk(s0["then"])):
+                return "option tested", "`if %s.is_none() { leave }` before" % nm
+        if d[0] == "cond" and d[2] and _norm(d[1]) == nm + ".is_some()":
+            return "option tested", "under `if %s.is_some()`" % nm
+        if d[0] == "cond" and not d[2] and _norm(d[1]) == nm + ".is_none()":
+            return "option tested", "in the else branch of `if %s.is_none()`" % nm
+    # `let mut nm = None;` filled by one child arm, unwrapped in another: grammar order
+    decl = None
+    for x in walk(fn["body"]):
+        if x.get("k") == "let" and nm in _pat_idents(x.get("pat")) and x.get("init") is not None and _norm(x["init"]) == "None":
+            decl = x
+    if decl is not None:
+        for m in walk(fn["body"]):
+            if m.get("k") == "match" and "as_rule()" in _norm(m["e"]):
+                arms = {}
+                for a in m["arms"]:
+                    for r in re.findall(r"Rule::(\w+)", _pat_text(a["pat"])):
+                        arms[r] = a
+                using = [r for r, a in arms.items() if any(x is node for x in walk(a["body"]))]
+                if not using:
+                    continue
+                assigning = set()
+                for r, a in arms.items():
+                    body = a["body"]
+                    top = body.get("stmts", []) if body.get("k") == "block" else [body]
+                    for t in top:
+                        if t.get("k") == "assign" and simple_name(t["l"]) == nm and _norm(t["r"]).startswith("Some("):
+                            assigning.add(r)
+                alphabet = set(arms)
+                cands = []
+                for rn, nfa in nfas.items():
+                    if rn == "__top__":
+                        continue
+                    syms = nfa.reachable_symbols({nfa.start})
+                    if alphabet <= syms:
+                        cands.append((len(syms - alphabet), rn))
+                if not cands:
+                    return None, None
+                cands.sort()
+                parent = cands[0][1]
+                if assigning and not any(_reach_without(nfas[parent], r, assigning) for r in using):
+                    return "filled by an earlier child", "in grammar rule `%s` every `%s` child is preceded by a child (%s) whose arm sets `%s = Some(..)`" % (parent, "/".join(using), ", ".join(sorted(assigning)), nm)
+    return None, None
+
+
+def _pat_text(p):
+    from astlib import pat_text
+    return pat_text(p)
+
+
+def _check_contract(facts, fn, rt):
+    if fn["name"] == "set":
+        # callers of set(): asm_save_y(line); callers of asm_save_y pass a value obtained from dummy()
+        ok = True
+        n_calls = 0
+        for f in facts.fns:
+            for node, env, doms in scoped(f):
+                if node.get("k") == "mcall" and node["method"] == "set" and "code" in _norm(node["recv"]) and f["name"] != "asm_save_y" and "/generate/" in f["file"]:
+                    ok = False
+                if node.get("k") == "mcall" and node["method"] == "asm_save_y" and node.get("args"):
+                    n_calls += 1
+                    a = simple_name(node["args"][0])
+                    b = env.get(a) if a else None
+                    src = None
+                    while b is not None and src is None:
+                        if b.init is not None and "dummy()" in _norm(b.init):
+                            src = "dummy()"
+                        elif b.scrut is not None:
+                            sn = simple_name(b.scrut)
+                            if "dummy()" in _norm(b.scrut):
+                                src = "dummy()"
+                            else:
+                                b = env.get(sn) if sn else None
+                        else:
+                            b = None
+                    if src is None:
+                        ok = False
+        return ok and n_calls > 0, "%d asm_save_y call(s), each with an index obtained from dummy()" % n_calls
+    if fn["name"] == "optimize":
+        want = "first" if rt == "first" else "second"
+        flags = {"first": ("remove_first", "remove_both"), "second": ("remove_second", "remove_both")}[want]
+        ok = True
+        cnt = 0
+        for node, env, doms in scoped(fn):
+            if node.get("k") == "assign" and simple_name(node["l"]) in flags and _norm(node["r"]) != "false":
+                cnt += 1
+                inside = any(d[0] == "arm" and _norm(d[1]).lstrip("&") == want and isinstance(d[2], dict) and d[2].get("k") == "tstruct" and d[2].get("segs") == ["Some"] for d in doms)
+                if not inside:
+                    ok = False
+        # and the unwraps sit under those flags
+        return ok and cnt > 0, "%d assignments of %s, all inside `if let Some(..) = &%s`" % (cnt, "/".join(flags), want)
+    return False, ""
